@@ -41,13 +41,13 @@ def run(ck):
     ck.require_fact("N2.pointer-target", fl, rec, E.m_cmp("<", E.m_is_ref("ptr"), E.m_is_ref("sz")), True, "recursive call", why="(a pointer past the message would be followed)")
     for s in fl.find(rec):
         a = E.strip(s.ev["x"])["a"]
-        good = (len(a) == 7 and E.key(a[6]) == "(rdepth + 1)" and E.key(a[4]) == "(name + no)" and E.key(a[5]) == "(ns - no)" and
+        good = (len(a) == 7 and E.ckey(a[6]) == E.cbin("+", "rdepth", "1") and E.ckey(a[4]) == E.cbin("+", "name", "no") and E.key(a[5]) == "(ns - no)" and
                 E.strip(a[2]).get("k") == "un" and E.m_is_ref("ptr")(E.strip(a[2])["e"]) and E.m_is_ref("sz")(a[1]) and E.m_is_ref("buf")(a[0]))
         if good:
             ck.ok("N2.recursion-args", s.where(), "recursion passes (buf, sz, &ptr, rdlength, name + no, ns - no, rdepth + 1)")
         else:
             ck.violation("N2.recursion-args", "N2|rfc1035NameUnpack|recursion-args", s.where(), "recursive call arguments changed: %s" % [E.key(x) for x in a])
-    label_copy = ev_call("memcpy", arg={0: E.M(lambda t: E.key(t) == "(name + no)", "name + no")})
+    label_copy = ev_call("memcpy", arg={0: E.M(lambda t: E.ckey(t) == E.cbin("+", "name", "no"), "name + no")})
     fits = E.M(lambda t: E.strip(t).get("k") == "bin" and E.strip(t).get("op") == "<" and E.key(E.strip(t)["l"]) == "((ns - no) - 1)" and E.m_is_ref("len")(E.strip(t)["r"]), "(ns - no - 1) < len")
     ck.require_fact("N2.label-fits-destination", fl, label_copy, fits, False, "memcpy(name + no, ...)", why="(a long label would overflow the caller's name buffer)")
     ck.require_fact("N2.label-size", fl, label_copy, E.m_cmp("<", E.m_any(), E.m_is_ref("c")) & E.M(lambda t: E.const(E.strip(t)["l"]) == 63, "63 < c"), False, "memcpy(name + no, ...)")
